@@ -131,6 +131,7 @@ class Ctx:
         self.any_ops = []
         self.fault_at = None
         self.ghost = {}
+        self.class_attrs = {}
         self.depth = 0
         self.notes = []
 
@@ -645,7 +646,10 @@ class Interp:
         if isinstance(obj, Foreign):
             return Foreign(None)
         if isinstance(obj, type):
-            # class attribute through the class object
+            # class attribute through the class object (writes made by the interpreted program live in an overlay)
+            for k in obj.__mro__:
+                if (k, name) in ctx.class_attrs:
+                    return ctx.class_attrs[(k, name)]
             for k in obj.__mro__:
                 if name in k.__dict__:
                     raw = k.__dict__[name]
@@ -683,6 +687,8 @@ class Interp:
         raise Unsupported(f'getattr on {type(obj).__name__}.{name}')
 
     def bind(self, raw, obj, owner):
+        if isinstance(raw, types.FunctionType) and (raw.__module__ or '') in ('_collections_abc', 'collections.abc'):
+            return BuiltinMethod(obj, raw.__name__)         # Mapping / Sequence mixin methods: modelled
         if isinstance(raw, types.FunctionType):
             return BoundMethod(raw, obj)
         if isinstance(raw, classmethod):
@@ -697,6 +703,8 @@ class Interp:
 
     def class_lookup(self, cls, name):
         for k in cls.__mro__:
+            if (k, name) in self.ctx.class_attrs:
+                return self.ctx.class_attrs[(k, name)], k
             if name in k.__dict__:
                 return k.__dict__[name], k
         return None, None
@@ -738,6 +746,12 @@ class Interp:
             if hook is not None:
                 raise Unsupported('user-defined __setattr__')
             self.dict_set(obj.d, name, val)
+            return
+        if isinstance(obj, type) and (obj.__module__ or '').startswith('fim'):
+            if self.ctx.guards:
+                raise CannotConvert()
+            self.ctx.class_attrs[(obj, name)] = val
+            self.ctx.mutations += 1
             return
         raise Unsupported(f'setattr on {type(obj).__name__}')
 
